@@ -1,6 +1,8 @@
-(* C20 on the tables regenerated from /repo: accepted configurations start; bad ones are rejected. *)
+(* C20: accepted configurations start; bad ones are rejected.  Generic in the struct-tag tables T: what is
+   needed of them is collected in the hypotheses of the section (all decidable, and discharged by
+   computation on the tables regenerated from /repo in Config/PropsC20.v). *)
 From Coq Require Import String List ZArith Bool Lia.
-From Verif Require Import Common.Outcome Config.Model Config.Proofs Config.TagsGen.
+From Verif Require Import Common.Outcome Config.Model Config.Proofs.
 Import ListNotations.
 Open Scope string_scope.
 Open Scope list_scope.
@@ -9,19 +11,76 @@ Section Sound.
   Variable str_ok : string -> string -> bool.
   Variable int_ok : string -> Z -> bool.
   Variable mongo_ok : string -> bool.
+  Variable T : tables.
   Variable cfg : cval.
-  Hypothesis Hshape : shaped tables_gen 8 "Config" cfg = true.
+  Hypothesis Hshape : shaped T 8 "Config" cfg = true.
 
-  Notation rejected := (rejected str_ok int_ok tables_gen).
-  Notation struct_err := (struct_err str_ok int_ok tables_gen).
-  Notation G := (guaranteed tables_gen 8 "Config").
+  Definition scheme_field : field := mkField "Scheme" "scheme" KStr (TOpts [VRequired; VNamed "scheme"]).
+  Definition conf_field : field := mkField "Configuration" "configuration" (KPtr "Configuration") (TOpts [VRequired]).
+  Definition sbi_field : field := mkField "Sbi" "sbi" (KPtr "Sbi") (TOpts [VRequired]).
+  Definition tls_field : field := mkField "Tls" "tls" (KPtr "Tls") (TOpts [VOptional]).
+
+  (* the reads that validation has to guarantee by itself (those under https are handled by Sbi.validate) *)
+  Definition read_paths : list (list string) :=
+    flat_map (fun s => match s with Read Https _ => [] | Read _ p => [p] | Routes => [] end) (startup ++ first_request) ++
+    [["Configuration"; "ServiceNameList"]].
+
+  (* what the section needs of the tables *)
+  Definition tables_facts : bool :=
+    forallb (guaranteed T 8 "Config") read_paths &&
+    (match assoc "Config" T with Some fs => existsb (fun f => field_eqb f conf_field) fs | None => false end) &&
+    (match assoc "Configuration" T with Some fs => existsb (fun f => field_eqb f sbi_field) fs | None => false end) &&
+    (match assoc "Sbi" T with
+     | Some fs => existsb (fun f => field_eqb f scheme_field) fs && existsb (fun f => field_eqb f tls_field) fs
+     | None => false end) &&
+    (match assoc "Tls" T with
+     | Some fs => existsb (String.eqb "Pem") (map f_name fs) && existsb (String.eqb "Key") (map f_name fs)
+     | None => false end).
+  Hypothesis Hfacts : tables_facts = true.
+
+  Lemma facts :
+    (forall p, In p read_paths -> guaranteed T 8 "Config" p = true) /\
+    (exists fs, assoc "Config" T = Some fs /\ In conf_field fs) /\
+    (exists fs, assoc "Configuration" T = Some fs /\ In sbi_field fs) /\
+    (exists fs, assoc "Sbi" T = Some fs /\ In scheme_field fs /\ In tls_field fs) /\
+    (exists fs, assoc "Tls" T = Some fs /\ In "Pem" (map f_name fs) /\ In "Key" (map f_name fs)).
+  Proof.
+    pose proof Hfacts as H. unfold tables_facts in H.
+    do 4 (apply andb_prop in H; destruct H as [H ?]).
+    assert (Hin : forall fs f, existsb (fun g => field_eqb g f) fs = true -> In f fs).
+    { intros fs f E. apply existsb_exists in E. destruct E as [g [Hg Eg]]. apply field_eqb_eq in Eg. subst g. exact Hg. }
+    assert (Hins : forall l n, existsb (String.eqb n) l = true -> In n l).
+    { intros l n E. apply existsb_exists in E. destruct E as [m [Hm Em]]. apply String.eqb_eq in Em. subst m. exact Hm. }
+    split; [rewrite forallb_forall in H; exact H|].
+    destruct (assoc "Config" T) as [f1|]; [|discriminate].
+    destruct (assoc "Configuration" T) as [f2|]; [|discriminate].
+    destruct (assoc "Sbi" T) as [f3|]; [|discriminate].
+    destruct (assoc "Tls" T) as [f4|]; [|discriminate].
+    repeat match goal with E : (_ && _) = true |- _ => apply andb_prop in E; destruct E end.
+    repeat split; eexists; (split; [reflexivity|]); repeat split; auto.
+  Qed.
+  Lemma HG p : In p read_paths -> guaranteed T 8 "Config" p = true.  Proof. apply (proj1 facts). Qed.
+  Lemma conf_field_in : exists fs, assoc "Config" T = Some fs /\ In conf_field fs.  Proof. apply facts. Qed.
+  Lemma sbi_field_in : exists fs, assoc "Configuration" T = Some fs /\ In sbi_field fs.  Proof. apply facts. Qed.
+  Lemma scheme_field_in : exists fs, assoc "Sbi" T = Some fs /\ In scheme_field fs.
+  Proof. destruct facts as [_ [_ [_ [[fs [A [B _]]] _]]]]. exists fs. tauto. Qed.
+  Lemma tls_field_in : exists fs, assoc "Sbi" T = Some fs /\ In tls_field fs.
+  Proof. destruct facts as [_ [_ [_ [[fs [A [_ B]]] _]]]]. exists fs. tauto. Qed.
+  Lemma tls_members : exists fs, assoc "Tls" T = Some fs /\ In "Pem" (map f_name fs) /\ In "Key" (map f_name fs).
+  Proof. apply facts. Qed.
+
+  Ltac in_paths := solve [apply HG; vm_compute; repeat (first [left; reflexivity | right])].
+
+  Notation rejected := (rejected str_ok int_ok T).
+  Notation struct_err := (struct_err str_ok int_ok T).
+  Notation G := (guaranteed T 8 "Config").
 
   Lemma accepted_struct : rejected cfg = false -> struct_err "Config" cfg = false.
   Proof. unfold Model.rejected. intros H. apply orb_false_iff in H. tauto. Qed.
 
   Lemma read_guaranteed p : rejected cfg = false -> G p = true -> exists x, get cfg p = Ok x.
   Proof.
-    intros Hr Hg. apply (guaranteed_get str_ok int_ok tables_gen p 8 "Config" cfg Hg Hshape (accepted_struct Hr)).
+    intros Hr Hg. apply (guaranteed_get str_ok int_ok T p 8 "Config" cfg Hg Hshape (accepted_struct Hr)).
   Qed.
 
   Lemma step_guaranteed g p : rejected cfg = false -> G p = true -> run_step mongo_ok cfg (Read g p) = Ok tt.
@@ -52,7 +111,7 @@ Section Sound.
   Lemma conf_sbi_present : rejected cfg = false -> (exists cs, conf = CStruct cs) /\ (exists ss, sbi = CStruct ss).
   Proof.
     intros Hr.
-    destruct (read_guaranteed ["Configuration"; "Sbi"; "Scheme"] Hr eq_refl) as [x Hx].
+    destruct (read_guaranteed ["Configuration"; "Sbi"; "Scheme"] Hr ltac:(in_paths)) as [x Hx].
     change ["Configuration"; "Sbi"; "Scheme"] with (["Configuration"; "Sbi"] ++ ["Scheme"]) in Hx.
     rewrite get_app in Hx. destruct (get cfg ["Configuration"; "Sbi"]) as [y| | |] eqn:E; try discriminate.
     destruct (get2 _ _ _ E) as [Hy [cs Hcs]]. split; [exists cs; exact Hcs|].
@@ -60,14 +119,14 @@ Section Sound.
     destruct sbi; cbn [get] in Hx; try discriminate. eexists. reflexivity.
   Qed.
 
-  Lemma accepted_configuration : rejected cfg = false -> configuration_err str_ok int_ok tables_gen conf = false.
+  Lemma accepted_configuration : rejected cfg = false -> configuration_err str_ok int_ok T conf = false.
   Proof.
     intros Hr. destruct (conf_sbi_present Hr) as [[cs Hc] _]. unfold Model.rejected in Hr.
     apply orb_false_iff in Hr. destruct Hr as [H _]. fold conf in H. rewrite Hc in H. cbn [is_nil] in H.
     rewrite <- Hc in H. exact H.
   Qed.
 
-  Lemma accepted_sbi : rejected cfg = false -> sbi_err str_ok int_ok tables_gen sbi = false.
+  Lemma accepted_sbi : rejected cfg = false -> sbi_err str_ok int_ok T sbi = false.
   Proof.
     intros Hr. pose proof (accepted_configuration Hr) as H. unfold configuration_err in H.
     repeat (apply orb_false_iff in H; destruct H as [H ?]). fold sbi in H.
@@ -76,54 +135,30 @@ Section Sound.
 
   (* one field of an accepted struct passes typeCheck *)
   Lemma field_passes sname fs f v :
-    assoc sname tables_gen = Some fs -> In f fs ->
-    Model.vs_err str_ok int_ok tables_gen 8 sname v = false ->
+    assoc sname T = Some fs -> In f fs ->
+    Model.vs_err str_ok int_ok T 8 sname v = false ->
     type_check str_ok int_ok f (fld v (f_name f)) = false.
-  Proof.
-    intros Ha Hin He. change 8%nat with (S 7) in He. cbn [Model.vs_err] in He. rewrite Ha in He.
-    pose proof (existsb_false _ _ He f Hin) as H. cbv beta in H. apply orb_false_iff in H. tauto.
-  Qed.
+  Proof. apply (field_passes_gen str_ok int_ok T 7). Qed.
 
   Lemma field_fails sname fs f v :
-    assoc sname tables_gen = Some fs -> In f fs ->
+    assoc sname T = Some fs -> In f fs ->
     type_check str_ok int_ok f (fld v (f_name f)) = true ->
-    Model.vs_err str_ok int_ok tables_gen 8 sname v = true.
-  Proof.
-    intros Ha Hin Ht. change 8%nat with (S 7). cbn [Model.vs_err]. rewrite Ha.
-    apply existsb_exists. exists f. split; [exact Hin|]. rewrite Ht. apply orb_true_r.
-  Qed.
+    Model.vs_err str_ok int_ok T 8 sname v = true.
+  Proof. apply (field_fails_gen str_ok int_ok T 7). Qed.
 
-  Definition scheme_field : field := mkField "Scheme" "scheme" KStr (TOpts [VRequired; VNamed "scheme"]).
-  Lemma scheme_field_in : exists fs, assoc "Sbi" tables_gen = Some fs /\ In scheme_field fs.
-  Proof. eexists. split; [reflexivity|]. left. reflexivity. Qed.
 
-  Definition conf_field : field := mkField "Configuration" "configuration" (KPtr "Configuration") (TOpts [VRequired]).
-  Definition sbi_field : field := mkField "Sbi" "sbi" (KPtr "Sbi") (TOpts [VRequired]).
-  Definition tls_field : field := mkField "Tls" "tls" (KPtr "Tls") (TOpts [VOptional]).
-  Definition pem_field : field := mkField "Pem" "pem" KStr (TOpts [VType "string"; VMinLen 1; VRequired]).
-  Definition key_field : field := mkField "Key" "key" KStr (TOpts [VType "string"; VMinLen 1; VRequired]).
-  Definition names_field : field := mkField "ServiceNameList" "serviceNameList" KStrs (TOpts [VRequired]).
-
-  Ltac in_table := eexists; split; [reflexivity|cbn [In]; tauto].
-  Lemma conf_field_in : exists fs, assoc "Config" tables_gen = Some fs /\ In conf_field fs.  Proof. in_table. Qed.
-  Lemma sbi_field_in : exists fs, assoc "Configuration" tables_gen = Some fs /\ In sbi_field fs.  Proof. in_table. Qed.
-  Lemma names_field_in : exists fs, assoc "Configuration" tables_gen = Some fs /\ In names_field fs.  Proof. in_table. Qed.
-  Lemma tls_field_in : exists fs, assoc "Sbi" tables_gen = Some fs /\ In tls_field fs.  Proof. in_table. Qed.
-  Lemma pem_field_in : exists fs, assoc "Tls" tables_gen = Some fs /\ In pem_field fs.  Proof. in_table. Qed.
-  Lemma key_field_in : exists fs, assoc "Tls" tables_gen = Some fs /\ In key_field fs.  Proof. in_table. Qed.
-
-  Lemma conf_shaped : rejected cfg = false -> shaped tables_gen 7 "Configuration" conf = true.
+  Lemma conf_shaped : rejected cfg = false -> shaped T 7 "Configuration" conf = true.
   Proof.
     intros Hr. destruct conf_field_in as [fs [Ha Hin]].
-    pose proof (shaped_field tables_gen 7 "Config" cfg fs conf_field Ha Hin Hshape) as H. cbn [f_kind f_name conf_field] in H.
+    pose proof (shaped_field T 7 "Config" cfg fs conf_field Ha Hin Hshape) as H. cbn [f_kind f_name conf_field] in H.
     fold conf in H. destruct H as [H|H]; [|exact H].
     destruct (conf_sbi_present Hr) as [[cs Hc] _]. congruence.
   Qed.
 
-  Lemma sbi_shaped : rejected cfg = false -> shaped tables_gen 6 "Sbi" sbi = true.
+  Lemma sbi_shaped : rejected cfg = false -> shaped T 6 "Sbi" sbi = true.
   Proof.
     intros Hr. destruct sbi_field_in as [fs [Ha Hin]].
-    pose proof (shaped_field tables_gen 6 "Configuration" conf fs sbi_field Ha Hin (conf_shaped Hr)) as H.
+    pose proof (shaped_field T 6 "Configuration" conf fs sbi_field Ha Hin (conf_shaped Hr)) as H.
     cbn [f_kind f_name sbi_field] in H. fold sbi in H. destruct H as [H|H]; [|exact H].
     destruct (conf_sbi_present Hr) as [_ [ss Hs]]. congruence.
   Qed.
@@ -135,7 +170,7 @@ Section Sound.
     intros Hr. pose proof (accepted_sbi Hr) as H. unfold sbi_err in H. apply orb_false_iff in H. destruct H as [_ H].
     destruct scheme_field_in as [fs [Ha Hin]].
     pose proof (field_passes "Sbi" fs scheme_field sbi Ha Hin H) as Ht. cbn [f_name scheme_field] in Ht.
-    pose proof (shaped_field tables_gen 5 "Sbi" sbi fs scheme_field Ha Hin (sbi_shaped Hr)) as Hl.
+    pose proof (shaped_field T 5 "Sbi" sbi fs scheme_field Ha Hin (sbi_shaped Hr)) as Hl.
     cbn [f_kind f_name scheme_field] in Hl.
     destruct (fld sbi "Scheme") as [s| | | | | |]; try discriminate. exists s. split; [reflexivity|].
     unfold Model.type_check in Ht. cbn [f_tag f_kind scheme_field empty_field is_empty is_required existsb] in Ht.
@@ -157,22 +192,22 @@ Section Sound.
     pose proof (accepted_sbi Hr) as He. unfold sbi_err in He. apply orb_false_iff in He. destruct He as [He _].
     rewrite Hs in He. cbn [str_of] in He.
     destruct tls_field_in as [fs [Ha Hin]].
-    pose proof (shaped_field tables_gen 5 "Sbi" sbi fs tls_field Ha Hin (sbi_shaped Hr)) as Ht.
+    pose proof (shaped_field T 5 "Sbi" sbi fs tls_field Ha Hin (sbi_shaped Hr)) as Ht.
     cbn [f_kind f_name tls_field] in Ht.
     destruct Ht as [Ht|Ht]; [rewrite Ht in He; cbn in He; discriminate|].
     (* the read: configuration and sbi are structs, tls is a shaped struct with both members *)
-    destruct (read_guaranteed ["Configuration"; "Sbi"] Hr eq_refl) as [y Hy].
+    destruct (read_guaranteed ["Configuration"; "Sbi"] Hr ltac:(in_paths)) as [y Hy].
     destruct (get2 _ _ _ Hy) as [Hy' _]. fold conf in Hy'. fold sbi in Hy'. subst y.
     change ["Configuration"; "Sbi"; "Tls"; leaf] with (["Configuration"; "Sbi"] ++ ["Tls"; leaf]).
     rewrite get_app, Hy. cbn [bind].
-    destruct (shaped_struct tables_gen 4 "Tls" (fld sbi "Tls") Ht) as [ts Hts].
+    destruct (shaped_struct T 5 "Tls" (fld sbi "Tls") Ht) as [ts Hts].
     destruct (conf_sbi_present Hr) as [_ [ss Hss]]. rewrite Hss in *. cbn [get].
     unfold fld in Hts. destruct (assoc "Tls" ss) as [t|] eqn:Et; [|discriminate]. subst t.
     assert (Hl : exists x, assoc leaf ts = Some x).
-    { change 4%nat with (S 3) in Ht. unfold fld in Ht. rewrite Et in Ht. cbn [Model.shaped] in Ht.
-      destruct (assoc "Tls" tables_gen) as [tfs|] eqn:Etf; [|discriminate].
+    { change 5%nat with (S 4) in Ht. unfold fld in Ht. rewrite Et in Ht. cbn [Model.shaped] in Ht.
+      destruct tls_members as [tfs [Etf [Hpem Hkey]]]. rewrite Etf in Ht.
       apply andb_prop in Ht. destruct Ht as [Hn _].
-      apply (names_assoc tfs ts leaf Hn). inversion Etf; subst tfs. cbn [map f_name]. destruct Hleaf as [->| ->]; cbn; tauto. }
+      apply (names_assoc tfs ts leaf Hn). destruct Hleaf as [->| ->]; assumption. }
     destruct Hl as [x Hx]. rewrite Hx. exists x. reflexivity.
   Qed.
 
@@ -180,7 +215,7 @@ Section Sound.
   Lemma routes_ok : rejected cfg = false -> run_step mongo_ok cfg Routes = Ok tt.
   Proof.
     intros Hr. cbn [run_step].
-    destruct (read_guaranteed ["Configuration"; "ServiceNameList"] Hr eq_refl) as [l Hl]. rewrite Hl. cbn [bind].
+    destruct (read_guaranteed ["Configuration"; "ServiceNameList"] Hr ltac:(in_paths)) as [l Hl]. rewrite Hl. cbn [bind].
     destruct (get2 _ _ _ Hl) as [Hl' _]. fold conf in Hl'. subst l.
     pose proof (accepted_configuration Hr) as H. unfold configuration_err in H.
     repeat (apply orb_false_iff in H; destruct H as [H ?]).
@@ -191,7 +226,7 @@ Section Sound.
   Proof.
     intros Hr. apply run_steps_ok. intros s Hin. cbn [startup first_request app In] in Hin.
     repeat (destruct Hin as [<-|Hin];
-            [first [ apply (step_guaranteed _ _ Hr); reflexivity
+            [first [ apply (step_guaranteed _ _ Hr); in_paths
                    | apply (routes_ok Hr)
                    | cbn [run_step]; unfold C; destruct (holds mongo_ok cfg Https) eqn:Eh; [|reflexivity];
                      match goal with |- bind (get cfg [_; _; _; ?leaf]) _ = _ =>
